@@ -341,8 +341,8 @@ pub fn messaging_all(thorough: bool) -> Vec<Scenario> {
 }
 
 pub const FAMILIES: &[&str] = &[
-    "pipe", "fanout", "fanout_race", "reqrep", "await_chain", "late_await", "spawn_storm", "fanin", "typed_mail", "bin",
-    "select_mix", "bin", "res", "fail", "refs",
+    "pipe", "fanout", "fanout_race", "reqrep", "await_chain", "late_await", "spawn_storm", "fanin", "typed_mail", "bin", "select_mix",
+    "res", "fail", "refs",
 ];
 
 pub fn static_family(name: &str) -> &'static str {
@@ -419,4 +419,92 @@ pub fn bin_all() -> Vec<Scenario> {
            "c = @{ [0x01, 0x02] __binary_concat__ },\nd = @{ [0x03, 0x04] __binary_concat__ },\n!c,\n!d",
            "0x0304"),
     ]
+}
+
+/// Source alphabet of the select under test in `select_mix`.
+pub const SELECT_SOURCES: &[(&str, &str)] = &[
+    ("c", "c"),                          // await a fast child (result 7)
+    ("s", "s"),                          // await a slow child (never finishes)
+    ("int", "#'int"),                    // type-only receive of 'int
+    ("A", "#A['int]"),                   // type-only receive of A['int]
+    ("eq2", "#'int { =&k => Ok }"),      // filter: accepts the integer 2
+    ("eq1v", "#'int { =&j => 99 }"),     // filter with a non-Ok truthy verdict: accepts 1
+    ("t0", "0"),                         // timeout 0
+    ("t5", "5"),                         // timeout 5 ms
+];
+
+/// `select_mix(sources, senders)`: a receiver runs one select over the given source list, then
+/// drains its mailbox with three `! [any, 0]` and reports `[selected, left1, left2, left3]`.
+/// The parent (single sender), or with `two_senders` the parent and a helper, send 1, A[4], 2.
+pub fn select_mix(sources: &[usize], two_senders: bool) -> Scenario {
+    let names: Vec<&str> = sources.iter().map(|i| SELECT_SOURCES[*i].0).collect();
+    let srcs: Vec<&str> = sources.iter().map(|i| SELECT_SOURCES[*i].1).collect();
+    let mut s = String::new();
+    s.push_str("'m = 'int | A['int]\n");
+    s.push_str("c = @{ 7 },\n");
+    s.push_str("s = @{ !'bin },\n");
+    s.push_str(&format!(
+        "r = @{{ k = 2, j = 1, v = ! [{}], d1 = ! [#'m, 0], d2 = ! [#'m, 0], d3 = ! [#'m, 0], [v, d1, d2, d3] }},\n",
+        srcs.join(", ")
+    ));
+    if two_senders {
+        s.push_str("h = @{ A[4] r, Ok },\n1 r,\n2 r,\n");
+    } else {
+        s.push_str("1 r,\nA[4] r,\n2 r,\n");
+    }
+    s.push_str("!r");
+    Scenario {
+        id: format!("select_mix([{}]{})", names.join(","), if two_senders { ",2s" } else { "" }),
+        family: "select_mix",
+        source: s,
+        confluent: false,
+        io: false,
+        expect: None,
+    }
+}
+
+pub fn select_mix_all(thorough: bool) -> Vec<Scenario> {
+    let n = SELECT_SOURCES.len();
+    let mut v = vec![];
+    for a in 0..n {
+        if a != 1 {
+            v.push(select_mix(&[a], false));
+        }
+        for b in 0..n {
+            if a != b {
+                v.push(select_mix(&[a, b], false));
+            }
+        }
+    }
+    // triples: one await, one receive/filter, one timeout, in every order (+ a few all-receive)
+    let awaits = [0usize, 1];
+    let recvs = [2usize, 3, 4, 5];
+    let timeouts = [6usize, 7];
+    let mut triples: Vec<[usize; 3]> = vec![];
+    for a in awaits {
+        for r in recvs {
+            for t in timeouts {
+                for p in permutations(3) {
+                    let base = [a, r, t];
+                    triples.push([base[p[0]], base[p[1]], base[p[2]]]);
+                }
+            }
+        }
+    }
+    for p in permutations(3) {
+        let base = [4usize, 5, 3];
+        triples.push([base[p[0]], base[p[1]], base[p[2]]]);
+        let base = [4usize, 2, 0];
+        triples.push([base[p[0]], base[p[1]], base[p[2]]]);
+    }
+    for (i, t) in triples.iter().enumerate() {
+        if thorough || i % 8 == 0 {
+            v.push(select_mix(t, false));
+        }
+    }
+    // two senders: a handful of pairs
+    for pair in [[4usize, 2], [2, 4], [5, 4], [4, 0], [0, 4], [3, 7], [4, 7], [7, 4]] {
+        v.push(select_mix(&pair, true));
+    }
+    v
 }
